@@ -95,11 +95,13 @@ pub fn perturb(doc: &MVal, path: &str, ks: &KeySet, rng: &mut Rng) -> MVal {
             }
             // new fields: fresh names, and names the rule uses elsewhere (a path segment at a
             // level where the rule does not address it)
-            let mut names: Vec<String> = vec!["yy0".into(), "yy1".into()];
+            let mut names: Vec<String> = vec!["yy0".into(), "yy1".into(), "_type".into(), "kind".into(), "type".into(), "value".into(), "id".into()];
             for p in &ks.paths {
                 for seg in p.split('.') {
-                    if !names.iter().any(|n| n == seg) {
-                        names.push(seg.to_owned());
+                    for cand in [seg.to_owned(), format!("{}_str", seg), format!("{}s", seg), seg.to_lowercase(), seg.to_uppercase(), seg.trim().to_owned()] {
+                        if !cand.is_empty() && !names.iter().any(|n| *n == cand) {
+                            names.push(cand);
+                        }
                     }
                 }
             }
